@@ -7,10 +7,16 @@ BIN = ["eq", "ne", "cmp", "lt", "le", "gt", "ge", "max", "min", "op_eq", "op_ne"
 
 def cmp_pair(rng, w, n):
     W = w * n
-    c = rng.randrange(8)
+    c = rng.randrange(10)
     if c < 3:
         t, a, b = pair(rng, w, n)
         return t, a, b
+    if c >= 8:
+        # exactly one digit differs, at every position equally likely
+        _, a = value(rng, w, n)
+        i = rng.randrange(n)
+        d = rng.choice([1, 1 << (w - 1), (1 << w) - 1, rng.randrange(1, 1 << w)])
+        return "one-digit-diff@%d" % (i % 8), a, a ^ (d << (w * i))
     # agree on the k leading digits, differ below
     _, a = value(rng, w, n)
     k = rng.randrange(0, n + 1)
